@@ -64,6 +64,7 @@ type WorkerOutput struct {
 	ByProfile  map[string]int    `json:"by_profile"`
 	Replayed   *ReplayOutcome    `json:"replayed,omitempty"`
 	Rechecked  int               `json:"rechecked"`
+	Survey     map[string][2]any `json:"survey,omitempty"` // full signature -> (count, first message)
 }
 
 // ReplayFile is the on-disk format of a violation (DESIGN appendix B).
@@ -193,6 +194,14 @@ func RunWorker(t *testing.T, cfg *WorkerConfig) *WorkerOutput {
 		}
 		v := res.Violations[0]
 		if k := signatureKnown(v.Signature(), cfg.Known); k != "" {
+			if out.Survey == nil {
+				out.Survey = map[string][2]any{}
+			}
+			if e, ok := out.Survey[v.Signature()]; ok {
+				out.Survey[v.Signature()] = [2]any{e[0].(int) + 1, e[1]}
+			} else {
+				out.Survey[v.Signature()] = [2]any{1, v.Msg}
+			}
 			out.KnownHits[k]++
 			if _, ok := out.KnownMsgs[k]; !ok {
 				out.KnownMsgs[k] = v.String()
